@@ -29,6 +29,20 @@ def _events_for(r, pin, pan, tid, cipher):
         block0 = out
         k2, out2 = call(lambda: pinblock.Iso0PinBlock.from_bytes(block0, card_number=pan).pin)
         ev.append(pev('iso0pin', pin, pan, data=block0, kind=k2, out=pinc.safe_digits(out2) if k2 == 'ok' else ()))
+    if kind == 'ok' and tid % 3 == 2:
+        # the card number is a public attribute: an object created for another card (or for none) and given this card
+        # before the block is built must build this card's block
+        other = pan[:-4] + '%04d' % ((int(pan[-4:]) + 4321) % 10000)
+
+        def late(first):
+            o = pinblock.Iso0PinBlock(pin, card_number=first)
+            o.card_number = pan
+            return o.to_bytes()
+        for first in (other, None):
+            k2, out2 = call(lambda: late(first))
+            e = pev('iso0', pin, pan, kind=k2, out=out2 if k2 == 'ok' else ())
+            e['_observed'] = {'card_number_assigned_after_construction': True, 'constructed_with': first, 'result': out2 if k2 != 'ok' else None}
+            ev.append(e)
     # format 4 with a supplied fill and with none
     fill = r.choice((1, 2 ** 64 - 1, 2 ** 63, r.randrange(1, 2 ** 64)))
     kind, out = call(lambda: pinblock.Iso4PinBlock(pin, random_value=fill).to_bytes())
@@ -88,7 +102,7 @@ def run(rep, wd, tier, seed):
     rep.assumptions += ['TLC 1.8 evaluates the TLA+ text correctly',
                         'Des.tla / Aes.tla are transcriptions of FIPS 46-3 / FIPS 197 checked against the published '
                         'known-answer vectors at every load; they are the independent cipher references',
-                        'freshness of the random fill can only be observed (no repetition in the sample), not decided']
+                        'freshness of the random fill can only be observed (no repetition in the sample; every bit position set about half of the time, within 7 standard deviations), not decided']
     cfg = write_cfg(os.path.join(wd, 'MC_PinBlock.cfg'), 'CONSTANT MaxFull = %d\nSPECIFICATION Spec\nINVARIANT BlockInv\n'
                     'INVARIANT DecInv\nCHECK_DEADLOCK FALSE\n' % (7 if tier == 'thorough' else 5))
     res = core.run_tlc('MC_PinBlock', cfg, wd, workers=core.NCPU, timeout=3000)
@@ -101,7 +115,10 @@ def run(rep, wd, tier, seed):
     traces = [t for o in outs for t in o]
     # one long trace of consecutive format-4 blocks without a supplied fill: 2000 fills must not repeat
     ev = []
-    for _ in range(6000 if tier == 'thorough' else 1100):
+    import random as _random
+    for i in range(6000 if tier == 'thorough' else 1100):
+        if i % 2:
+            _random.seed(20260927)      # the application seeds ITS generator between blocks (simulations, tests, shuffles)
         kind, out = call(lambda: pinblock.Iso4PinBlock('1234').to_bytes())
         ev.append(pev('iso4', '1234', supplied=False, kind=kind, out=out if kind == 'ok' else ()))
     traces.append({'tid': len(traces), 'events': ev, '_desc': '%d consecutive format 4 blocks without a supplied fill' % len(ev)})
